@@ -23,6 +23,8 @@ Env ==
         \/ KRmDir \/ KMkDir
   \/ /\ budget > 0 /\ wr = NoWr /\ budget' = budget - 1
      /\ \E n \in Names, c \in Contents : KTrunc(n) /\ wr' = [n |-> n, c |-> c]
+  \* a transient failure of the (re-)registration costs one unit of the budget too
+  \/ /\ budget > 0 /\ wr = NoWr /\ budget' = budget - 1 /\ UNCHANGED wr /\ MRegFail
   \* second kernel step of the write (if the directory vanished meanwhile the write still hits the open file: dropped)
   \/ /\ wr # NoWr /\ wr' = NoWr /\ UNCHANGED budget
      /\ IF dirGen # 0 /\ files[wr.n] # None THEN KWrite(wr.n, wr.c) ELSE UNCHANGED dvars
